@@ -1286,6 +1286,18 @@ func ruleFD4(c *Ctx) *rule {
 		b := s2.run(args[idx(fw.stop)])
 		if a.hasCall("os.Getwd") && b.hasCall("os.UserHomeDir") && (b.hasCall("os.Getwd") || a.hasCall("os.UserHomeDir")) {
 			r.bad(key, c.ipos(site), "the start or the stop directory of the search is chosen between the working directory and the home directory: when the other one is picked the directories between them are never searched")
+		} else if norm := func() string {
+			// the walk ends when the two compare equal: a path rewriting applied to one of them only (symlink resolution, cleaning,
+			// case folding) makes them differ where they name the same directory
+			rewriters := []string{"path/filepath.EvalSymlinks", "os.Readlink", "path/filepath.Abs", "path/filepath.Clean", "strings.ToLower", "strings.ToUpper", "path/filepath.ToSlash", "path/filepath.FromSlash"}
+			for _, n := range rewriters {
+				if a.hasCall(n) != b.hasCall(n) {
+					return n
+				}
+			}
+			return ""
+		}(); a.hasCall("os.Getwd") && b.hasCall("os.UserHomeDir") && norm != "" {
+			r.bad(key, c.ipos(site), "only one of start and stop goes through "+norm+": where the other names the same directory differently (a symbolic link on the way) the walk never sees start == stop and climbs past the stop directory")
 		} else if a.hasCall("os.Getwd") && b.hasCall("os.UserHomeDir") {
 			r.ok(key, c.ipos(site), "start is the working directory, stop the home directory")
 		} else {
